@@ -19,6 +19,23 @@ ZOO_DOC = {
 ZOO_LIST = [{"a": 1, "b": [1, 2]}, [5, 6, {"a": 7}], "s", 0, {"a": 2}, [], {}, [[8], [9, 10]]]
 
 
+def _chain(depth, leaf):
+    d = leaf
+    for i in range(depth):
+        d = {"n": d} if i % 2 == 0 else [d]
+    return d
+
+
+# sizes above the thresholds at which "optimised" code paths tend to switch (50-100 items / matches, depth > 8)
+BIG_DOC = {
+    "wide": {f"k{i:03d}": (i if i % 3 else {"v": i, "s": str(i)}) for i in range(130)},
+    "long": [i % 7 for i in range(150)] + ["tail"],
+    "recs": [{"id": i, "tags": [f"t{j}" for j in range(i % 5)], "ok": i % 2 == 0} for i in range(70)],
+    "deep": _chain(12, {"leaf": "x" * 150}),
+    "text": "y" * 400,
+}
+
+
 def L(kind, fn, *args, pre=None, **kw):
     t = {"c": "leaf", "kind": kind, "pre": pre, "fn": fn, "args": list(args)}
     if kw:
@@ -92,6 +109,16 @@ def systematic_paths(tier):
                 if (i + len(str(f))) % (3 if tier == "quick" else 1) == 0:
                     for q in FIXED_PARTS[(i * 7) % len(FIXED_PARTS)::9]:
                         yield mkpath([f, p, q]), doc
+    big = [[{"p": "prim", "v": "wide"}, {"p": "map"}], [{"p": "prim", "v": "wide"}, {"p": "map"}, {"p": "prim", "v": "v"}],
+           [{"p": "prim", "v": "long"}, {"p": "list"}], [{"p": "prim", "v": "long"}, {"p": "list", "index": L("index", "greater_than", 60)}],
+           [{"p": "prim", "v": "long"}, {"p": "prim", "v": 149}], [{"p": "prim", "v": "long"}, {"p": "prim", "v": 150}],
+           [{"p": "prim", "v": "recs"}, {"p": "list"}, {"p": "prim", "v": "tags"}, {"p": "list"}],
+           [{"p": "prim", "v": "recs"}, {"p": "mol"}, {"p": "mol"}], [{"p": "mol"}, {"p": "mol"}],
+           [{"p": "prim", "v": "recs"}, {"p": "list", "value": L("value", "keys_contain", "ok")}, {"p": "prim", "v": "id"}],
+           [{"p": "prim", "v": "deep"}] + [{"p": "mol"}] * 12, [{"p": "prim", "v": "deep"}] + [{"p": "mol"}] * 13,
+           [{"p": "prim", "v": "wide"}, {"p": "prim", "v": "k129"}, {"p": "prim", "v": "s"}], [{"p": "prim", "v": "text"}]]
+    for b in big:
+        yield mkpath(b), BIG_DOC
     # fan-out at several levels
     fans = [[{"p": "map"}, {"p": "map"}], [{"p": "map"}, {"p": "list"}], [{"p": "mol"}, {"p": "mol"}],
             [{"p": "mol"}, {"p": "mol"}, {"p": "mol"}], [{"p": "prim", "v": "deep"}, {"p": "map"}, {"p": "mol"}, {"p": "mol"}],
